@@ -42,6 +42,7 @@ type Obl struct {
 	Goal   T
 	Expect string // "unsat" (valid) or "sat" (cover)
 	Pieces []T    // conjuncts of Goal (set when there are several)
+	Focus  bool   // build the query without assumptions labelled for other properties
 	Path   string
 	Where  string
 	Site   string // return site (ensures) — part of a finding's identity
@@ -108,7 +109,15 @@ type Exec struct {
 
 	inlined   map[string]bool
 	byContr   map[string]bool
+	// view: property whose labelled loop invariants are active in this run ("" =
+	// base run); viewProps: the properties that have labelled loop invariants
+	view      string
+	viewProps map[string]bool
 	localNames map[string]bool
+	// termLabels: labels of the contract clause an assumed term came from
+	termLabels map[string][]string
+	// requireTerms: assumed preconditions (never dropped by the relevance filter)
+	requireTerms map[string]bool
 	// calleeFrame: captured variables of the closure whose contract is being applied
 	calleeFrame *Frame
 	intrUsed  map[string]bool
@@ -337,6 +346,9 @@ func (e *Exec) emit(st *State, name, kind string, labels []string, goal T, where
 		e.recordTrivial(name, kind, labels, where)
 		return
 	}
+	if !e.inView(labels) {
+		return
+	}
 	// the goal is kept whole; its conjuncts are decided separately only if the
 	// whole goal is not proved quickly (solveOne)
 	pieces := SplitGoal(goal, 24)
@@ -355,6 +367,9 @@ func (e *Exec) emit(st *State, name, kind string, labels []string, goal T, where
 }
 
 func (e *Exec) recordTrivial(name, kind string, labels []string, where string) {
+	if !e.inView(labels) {
+		return
+	}
 	if kind == "safe" {
 		// syntactically discharged safety checks are only counted
 		if !e.oblSeen["triv|"+name] {
@@ -380,8 +395,35 @@ func pcKey(pc []T) string {
 	return b.String()
 }
 
+// inView: obligations labelled for a view property belong to that view's run,
+// everything else to the base run.
+func (e *Exec) inView(labels []string) bool {
+	for _, l := range labels {
+		if e.viewProps[labelProp(l)] {
+			return e.view != "" && labelProp(l) == e.view || e.view != "" && hasPropLabel(labels, e.view)
+		}
+	}
+	return e.view == ""
+}
+
+// invActive: is this loop invariant part of the current view?
+func (e *Exec) invActive(labels []string) bool {
+	if len(labels) == 0 {
+		return true
+	}
+	for _, l := range labels {
+		if !e.viewProps[labelProp(l)] {
+			return true
+		}
+		if e.view != "" && labelProp(l) == e.view {
+			return true
+		}
+	}
+	return false
+}
+
 func (e *Exec) emitCover(st *State, name string, where string) {
-	if st.Dry {
+	if st.Dry || e.view != "" {
 		return
 	}
 	o := &Obl{Unit: e.unit, Name: e.unit + "/" + name, Kind: "cover", PC: append([]T(nil), st.PC...), Goal: False, Expect: "sat", Path: st.PathID, Where: where, Exec: e}
@@ -701,6 +743,9 @@ func (e *Exec) checkInvariant(st *State, fr *Frame, li *LoopInfo, phase string, 
 	}
 	env := e.frameEnv(st, fr)
 	for i, inv := range c.Invs[li.Ordinal] {
+		if !e.invActive(inv.Labels) {
+			continue
+		}
 		g := env.evalBool(inv.E)
 		name := fmt.Sprintf("loop%d/invariant-%s#%d", li.Ordinal, phase, i+1)
 		if len(inv.Labels) > 0 {
@@ -807,7 +852,17 @@ func (e *Exec) assumeInvariant(st *State, fr *Frame, li *LoopInfo) {
 	env := e.frameEnv(st, fr)
 	env.pos = false
 	for _, inv := range c.Invs[li.Ordinal] {
-		st.assume(env.evalBool(inv.E))
+		if !e.invActive(inv.Labels) {
+			continue
+		}
+		g := env.evalBool(inv.E)
+		if len(inv.Labels) > 0 {
+			if e.termLabels == nil {
+				e.termLabels = map[string][]string{}
+			}
+			e.termLabels[g.S] = inv.Labels
+		}
+		st.assume(g)
 	}
 }
 
